@@ -1,7 +1,7 @@
 /-
 Model of the format objects in `fpy2/number/context/*.py` (C16): encodings, ordinals,
 normalisation, representability, min/max value queries.  Function by function as the code is
-written today (defects included).  Core Lean only.
+written today (after the repairs F2, F15, F16, F23).  Core Lean only.
 
 Conventions (same as `Ctx.lean`): Python `a << k` on non-negative ints is `a * 2^k` (or `2^k * a`),
 `a >> k` is `a / 2^k`, `a & bitmask(k)` is `a % 2^k`.  Python `|` is kept as `|||` (bitwise OR is
@@ -172,6 +172,7 @@ def repr (f : EF) (v : FV) : Bool :=
   if v.isInf && !f.inf then false
   else if v.isNan && f.kind == .none then false
   else if !f.mpb.repr v then false
+  else if v.isNar then true
   else if v.isZero then !(v.sign && f.kind == .negZero)
   else f.hasNonzero
 
@@ -190,17 +191,23 @@ def encodeFields (f : EF) (v : FV) : Except Err (Nat × Nat) :=
   | .inf _ =>
     match f.kind with
     | .ieee => .ok (emask, 0)
-    | .maxVal => if f.pmax = 1 then .ok (emask - 1, 1) else .ok (emask, bitmask f.m - 1)
+    | .maxVal => if f.pmax = 1 then .ok (emask - 1, 0) else .ok (emask, bitmask f.m - 1)
     | .negZero | .none => .ok (emask, bitmask f.m)
   | .fin x =>
     if x.c = 0 then .ok (0, 0)
     else if x.e ≤ f.emin then .ok (0, shiftBy x.c (x.exp - f.expmin))
     else .ok ((x.e - f.emin + 1).toNat, shiftDown x.c ((x.p : Int) - f.pmax) % 2 ^ (f.pmax - 1))
 
+/-- the sign bit `encode` writes: `x.s`, except that the NaN of a NEG_ZERO format always sets it -/
+def encodeSign (f : EF) (v : FV) : Nat :=
+  match v with
+  | .nan s => if f.kind == .negZero then 1 else (if s then 1 else 0)
+  | _ => if v.sign then 1 else 0
+
 /-- `EFloatFormat.encode` -/
 def encode (f : EF) (v : FV) : Except Err Nat :=
   if !f.repr v then .error .valueError else
-  let sbit : Nat := if v.sign then 1 else 0
+  let sbit : Nat := f.encodeSign v
   match f.encodeFields v with
   | .error e => .error e
   | .ok (ebits, mbits) => .ok ((2 ^ (f.nbits - 1) * sbit ||| 2 ^ f.m * ebits) ||| mbits)
@@ -273,16 +280,16 @@ def repr (f : MPFixFmt) (v : FV) : Bool :=
     | .inf _ => f.enableInf
     | .fin x => x.isMoreSignificant f.nmin
 
-/-- `MPFixedFormat.normalize` as written: the guard `not isinstance(x, Float) and …` never fires for a
-`Float`, and the two shifts are the wrong way round (candidate defect F2). -/
-def normalize (_f : MPFixFmt) (v : FV) : Except Err FV :=
+/-- `MPFixedFormat.normalize`: the significand moved to `expmin` -/
+def normalize (f : MPFixFmt) (v : FV) : Except Err FV :=
+  if !f.repr v then .error .typeError else
   match v with
   | .nan s => .ok (.nan s)
   | .inf s => .ok (.inf s)
   | .fin x =>
-    let off := x.exp - _f.expmin
-    if off > 0 then .ok (.fin ⟨x.s, x.exp - off, x.c / 2 ^ off.toNat⟩)
-    else if off < 0 then .ok (.fin ⟨x.s, x.exp - off, x.c * 2 ^ (-off).toNat⟩)
+    let off := x.exp - f.expmin
+    if off > 0 then .ok (.fin ⟨x.s, x.exp - off, x.c * 2 ^ off.toNat⟩)
+    else if off < 0 then .ok (.fin ⟨x.s, x.exp - off, x.c / 2 ^ (-off).toNat⟩)
     else .ok (.fin x)
 
 /-- `_to_ordinal` is `fixOrdinal` of `Ctx.lean` -/
